@@ -119,6 +119,10 @@ func (cr *ChunkReader) Read(p []byte) (int, error) {
 		}
 		n, err := cr.parseAndRemoveChunkInfo(p[chunkSize:n])
 		n += int(chunkSize)
+		if err == nil && cr.isEOF {
+			// the stream ended before the final chunk
+			err = io.ErrUnexpectedEOF
+		}
 		return n, err
 	}
 
@@ -126,6 +130,11 @@ func (cr *ChunkReader) Read(p []byte) (int, error) {
 	cr.chunkHash.Write(p[:n])
 	if cr.checksumHash != nil {
 		cr.checksumHash.Write(p[:n])
+	}
+	if err == io.EOF {
+		// only the final (zero sized) chunk ends the stream: running out
+		// of data here means the stream was cut short
+		return n, io.ErrUnexpectedEOF
 	}
 	return n, err
 }
